@@ -66,6 +66,33 @@ theorem consistent_accepted (g : FGraph)
   simp only [List.nil_append] at h1 h2
   exact hc k f1 f2 ((collectG_mem _ g).mp h1) ((collectG_mem _ g).mp h2)
 
+/-- **Rejected exactly when inconsistent** (mini-round; the two directions above as one statement). The
+    build raises `two different definitions` if and only if two `Function` nodes reachable anywhere in the
+    program share a `(domain, name)` and differ in their rendered definition. -/
+theorem rejected_iff_inconsistent (g : FGraph) :
+    toModel g = none ↔ ∃ k f1 f2, (k, f1) ∈ usedG g ∧ (k, f2) ∈ usedG g ∧ f1 ≠ f2 := by
+  constructor
+  · intro hnone
+    apply Classical.byContradiction
+    intro hno
+    have hc : ∀ k f1 f2, (k, f1) ∈ usedG g → (k, f2) ∈ usedG g → f1 = f2 := by
+      intro k f1 f2 h1 h2
+      apply Classical.byContradiction
+      intro hne
+      exact hno ⟨k, f1, f2, h1, h2, hne⟩
+    have := consistent_accepted g hc
+    rw [hnone] at this
+    cases this
+  · rintro ⟨k, f1, f2, h1, h2, hne⟩
+    exact inconsistent_rejected g k f1 f2 h1 h2 hne
+
+-- non-vacuity: both sides true (variant hidden in an If body) and both sides false
+example : toModel (.mk [.call ("d", "f") 1 (.mk [.op]), .ctrl [.mk [.call ("d", "f") 7 (.mk [])]]]) = none ∧
+    (("d", "f"), 1) ∈ usedG (.mk [.call ("d", "f") 1 (.mk [.op]), .ctrl [.mk [.call ("d", "f") 7 (.mk [])]]]) ∧
+    (("d", "f"), 7) ∈ usedG (.mk [.call ("d", "f") 1 (.mk [.op]), .ctrl [.mk [.call ("d", "f") 7 (.mk [])]]]) := by
+  decide
+example : toModel (.mk [.call ("d", "f") 1 (.mk [.op]), .call ("d", "f") 1 (.mk [.op])]) ≠ none := by decide
+
 /-- **Why the comparison has to be on the WHOLE rendered definition** (the static types of nested graphs
     included). Let `q` be any coarser view of a definition (e.g. "the proto with the types of the nested
     graphs' inputs / outputs / value_infos cleared"). If comparing through `q` accepts a program that the
